@@ -702,8 +702,13 @@ def _design_jobs(d, tier):
     g = dict(G_TRYQ, ops=kind_ops("agen", ALL_OPS))
     jobs.append((("fixed", "agen", "fixed"),
                  make_cfg(d, "fixed_agen", "agen", "fixed", g, keep=False, emit=False, invs=["LockStep", "NoOrphan"]), {}))
-    deep = dict(G_TRY, maxops=4 if tier == "quick" else 6, postmax=1 if tier == "quick" else 2)
     for kind in KINDS:
+        if tier != "quick":
+            deep = dict(G_TRY, maxops=6, postmax=2)
+        elif kind == "agen":          # the hand-written loop gets the larger scope in the quick tier
+            deep = dict(G_TRY, maxops=4)
+        else:
+            deep = dict(G_TRYQ, maxops=4)
         g = dict(deep, ops=kind_ops(kind, deep["ops"]))
         jobs.append((("deep", kind, wrap_of(kind)),
                      make_cfg(d, f"deep_{kind}", kind, wrap_of(kind), g, keep=False, emit=False,
@@ -859,10 +864,10 @@ def run(rep, tier, seed):
         from concurrent.futures import ThreadPoolExecutor
         tp = ThreadPoolExecutor(max_workers=2)
         try:
-            # the three groups of TLC runs overlap: design-level runs (2 JVMs), trace validation
+            # the three groups of TLC runs overlap: design-level runs (3 JVMs), trace validation
             # (3 single-threaded JVMs) and the case tables (3 JVMs), whose rows are replayed here
             djobs = _design_jobs(d, tier)
-            dfut = tp.submit(_tlc_many, djobs, 2, 3)
+            dfut = tp.submit(_tlc_many, djobs, 3, 3)
             nb, ns, sl = (150, 4, 10) if tier == "quick" else (1000, 5, 14)
             recs = [trace_record(pool, d, kind, seed, nb, ns, sl) for kind in KINDS]
             tfut = tp.submit(_trace_runs, recs)
